@@ -1,4 +1,4 @@
-CONSTANTS NK = 5  NM = 2  MaxPasses = 3  Mode = "ord"  PruneNoop = TRUE
+CONSTANTS NK = 5  NM = 2  MaxPasses = 3  Mode = "ord"  PruneNoop = TRUE  WithPairs = TRUE
           Cases <- OrdCasesT  Shapes <- NoShapes  Coins <- AllCoins  HashTypes <- StdHashTypes
 SPECIFICATION RSpec
 CHECK_DEADLOCK FALSE
